@@ -27,15 +27,16 @@ func TestMain(m *testing.M) { pbt.Main(m) }
 // the template is repeated cyclically up to NOut outputs (keeps the 251..254
 // output shapes readable in replay files).
 type Case struct {
-	Tx      ref.Tx       `json:"tx"`
-	NOut    int          `json:"nout"`
-	Quote   ref.FeeQuote `json:"quote"`
-	Dest    string       `json:"dest"` // "address" | "script" | "existing"
-	Mainnet bool         `json:"mainnet,omitempty"`
-	Hash    pbt.Hex      `json:"hash,omitempty"`   // dest == address: 20-byte public key hash
-	Script  pbt.Hex      `json:"script,omitempty"` // dest == script
-	Index   uint64       `json:"index,omitempty"`  // dest == existing
-	Rel     string       `json:"rel,omitempty"`    // amount relation the generator aimed at (informational)
+	Tx         ref.Tx       `json:"tx"`
+	NOut       int          `json:"nout"`
+	Quote      ref.FeeQuote `json:"quote"`
+	Dest       string       `json:"dest"` // "address" | "script" | "existing"
+	Mainnet    bool         `json:"mainnet,omitempty"`
+	Hash       pbt.Hex      `json:"hash,omitempty"`        // dest == address: 20-byte public key hash
+	Script     pbt.Hex      `json:"script,omitempty"`      // dest == script
+	ScriptForm int          `json:"script_form,omitempty"` // how an empty script is represented (see callChange)
+	Index      uint64       `json:"index,omitempty"`       // dest == existing
+	Rel        string       `json:"rel,omitempty"`         // amount relation the generator aimed at (informational)
 	// RepIn appends that many further copies of the last input (own txid, worth nothing), so
 	// that the input count reaches its three-byte prefix without 253 inputs being stored
 	RepIn int `json:"rep_in,omitempty"`
@@ -116,7 +117,7 @@ func inDomain(c Case, m ref.Tx) string {
 			return "bad hash"
 		}
 	case destScript:
-		if len(c.Script) < 1 || ref.FeeIsData(c.Script) {
+		if ref.FeeIsData(c.Script) { // (tenth round) the empty script is a script too
 			return "change script outside domain"
 		}
 	case destExisting:
@@ -244,7 +245,18 @@ func callChange(tx *bt.Tx, fq *bt.FeeQuote, c Case) (addr string, opErr, harness
 		addr = a.AddressString
 		opErr = tx.ChangeToAddress(addr, fq)
 	case destScript:
-		opErr = tx.Change(bscript.NewFromBytes(append([]byte{}, c.Script...)), fq)
+		so := bscript.NewFromBytes(append([]byte{}, c.Script...))
+		if len(c.Script) == 0 {
+			// (tenth round) the forms an empty script takes in Go: an empty slice, a nil slice behind a
+			// non-nil pointer (new(bscript.Script), var s bscript.Script; &s), NewFromBytes(nil)
+			switch c.ScriptForm % 3 {
+			case 1:
+				so = new(bscript.Script)
+			case 2:
+				so = bscript.NewFromBytes(nil)
+			}
+		}
+		opErr = tx.Change(so, fq)
 	case destExisting:
 		opErr = tx.ChangeToExistingOutput(uint(c.Index), fq)
 	}
@@ -534,7 +546,6 @@ func wideLabel(ctx *pbt.Ctx, q ref.FeeQuote) {
 	}
 }
 
-
 // genQuoteVia draws the exported way a quote object in use is changed.
 func genQuoteVia(t *rapid.T, label string) string {
 	return rapid.SampledFrom([]string{"addquote", "addquote", "addquote", "unmarshal", "unmarshal", "shared", "fetched", "fetched-other-quote", "unmarshal-partial", "updateminerfees", "expiry"}).Draw(t, label)
@@ -713,6 +724,9 @@ func genCase(t *rapid.T) Case {
 		c.Dest = destScript
 		n := 1 + gen.EdgeLen(t, 399, "cslen", 0, 1, 23, 24, 25, 33, 74, 75, 76, 251, 252, 253, 299, 399)
 		c.Script = nonData(gen.FillBytes(t, n, "cscript"))
+		if rapid.IntRange(0, 7).Draw(t, "empty_script") == 0 {
+			c.Script, c.ScriptForm = pbt.Hex{}, rapid.IntRange(0, 2).Draw(t, "script_form")
+		}
 	default:
 		c.Dest = destExisting
 		if nout > 0 && rapid.IntRange(0, 7).Draw(t, "badidx") != 0 {
@@ -791,7 +805,7 @@ func enumCases(yield func(Case)) {
 	h := func(b byte) []byte { return bytes.Repeat([]byte{b}, 20) }
 	rates := []ref.FeeUnit{{Sat: 5, Bytes: 100}, {Sat: 1, Bytes: 1}, {Sat: 2, Bytes: 1}, {Sat: 5, Bytes: 1}, {Sat: 50, Bytes: 1}, {Sat: 999, Bytes: 1000}, {Sat: 1, Bytes: 1000}, {Sat: 0, Bytes: 1}, {Sat: 5000, Bytes: 3}}
 	rels := []string{"insufficient", "equal", "fee-1", "fee", "fee+1", "fee+dust", "fee+dust+1", "fee+dust+2", "ample", "huge", "surplus=2^63-1", "surplus=2^63", "surplus=2^63+12345", "total=2^64-1"}
-	dests := []string{"address", "p2pkh", "script1", "script24", "script76", "script253", "script400", "existing0", "existingLast", "existingInvalid"}
+	dests := []string{"address", "p2pkh", "script0", "script1", "script24", "script76", "script253", "script400", "existing0", "existingLast", "existingInvalid"}
 	for _, nout := range []int{0, 1, 2, 251, 252, 253, 254} {
 		for _, d := range dests {
 			for ri, r := range rates {
@@ -824,6 +838,9 @@ func enumCases(yield func(Case)) {
 						var n int
 						fmt.Sscanf(d, "script%d", &n)
 						c.Dest, c.Script = destScript, bytes.Repeat([]byte{0x51}, n)
+						if n == 0 {
+							c.ScriptForm = (nout + ri) % 3 // the empty script in each of its Go forms
+						}
 					}
 					m := expand(c)
 					fWith, err := feeOfFinal(withChange(c, m), c.Quote)
@@ -879,9 +896,9 @@ func enumCases(yield func(Case)) {
 func TestChange(t *testing.T) {
 	pbt.Run(t, pbt.Sub[Case]{
 		Name: "change", Quick: 300000, Thorough: 16000000,
-		Gen:   genCase,
-		Check: check,
-		EnumDesc: "one unsigned P2PKH input; output count in {0,1,2,251,252,253,254} x destination in {address, P2PKH script, scripts of 1/24/76/253/400 bytes, existing output first/last/invalid} x 9 standard rates (paired with a different data rate; every other one adds an OP_FALSE OP_RETURN output) x input total in {out-1, out, F-1, F, F+1, F+dust, F+dust+1, F+dust+2, ample, huge, F+2^63-1, F+2^63, F+2^63+12345, 2^64-1}, F = reference fee including the change output",
+		Gen:      genCase,
+		Check:    check,
+		EnumDesc: "one unsigned P2PKH input; output count in {0,1,2,251,252,253,254} x destination in {address, P2PKH script, the empty script (as empty slice / nil slice behind a pointer / NewFromBytes(nil)), scripts of 1/24/76/253/400 bytes, existing output first/last/invalid} x 9 standard rates (paired with a different data rate; every other one adds an OP_FALSE OP_RETURN output) x input total in {out-1, out, F-1, F, F+1, F+dust, F+dust+1, F+dust+2, ample, huge, F+2^63-1, F+2^63, F+2^63+12345, 2^64-1}, F = reference fee including the change output",
 		Enum:     func(_ string, yield func(Case)) { enumCases(yield) },
 	})
 }
